@@ -238,6 +238,11 @@ def _explore_once(mod, modname, inst, seed, W, res, t0):
                 # checked on its witness only
                 res['concretised_paths'] += 1
                 res['sampled'] = True
+                if not state.get('fuzzed'):
+                    # ... plus, once per instance, on boundary-biased
+                    # concrete inputs drawn from the declared input domains
+                    state['fuzzed'] = True
+                    fallback_samples(ctx, pres)
             else:
                 res['inconclusive'].append(
                     'counterexample (%s) did not reproduce on the real '
@@ -245,6 +250,31 @@ def _explore_once(mod, modname, inst, seed, W, res, t0):
         else:
             res['inconclusive'].append('replay %s: %s' % (c['outcome'],
                                                           c['detail'][:300]))
+
+    def fallback_samples(ctx, pres, n=60):
+        import random
+        rng = random.Random(seed * 1009 + 7)
+        inputs = [(nm, kind, meta, len(e) if isinstance(e, list) else None)
+                  for nm, kind, e, meta in ctx.inputs]
+        for _ in range(n):
+            a = {}
+            for nm, kind, meta, ln in inputs:
+                a[nm] = _boundary_value(rng, kind, meta, ln)
+            c = conc(a)
+            if c['outcome'] in ('violated', 'raise', 'hang'):
+                notes = c.get('notes') or {}
+                key = notes.get('key') or '%s:fallback' % inst['name']
+                if key not in state['viol_keys']:
+                    state['viol_keys'].add(key)
+                    res['violations'].append({
+                        'key': key, 'kind': 'cex',
+                        'what': 'found on a boundary-biased concrete input '
+                                '(the symbolic encoding did not apply to '
+                                'this code)',
+                        'concrete': c['outcome'],
+                        'detail': c['detail'][:500], 'assignment': a,
+                        'notes': notes})
+                return
 
     def on_path(ctx, p):
         i = state['n']
@@ -330,6 +360,40 @@ def _explore_once(mod, modname, inst, seed, W, res, t0):
     return 'done'
 
 
+CP_BOUNDARY = [0x00, 0x20, 0x41, 0x7F, 0x80, 0x7FF, 0x800, 0xD7FF, 0xE000,
+               0xFEFF, 0xFFFD, 0xFFFF, 0x10000, 0x1F600, 0x10FFFF]
+F64_BOUNDARY = [0x0, 0x8000000000000000, 0x3FF0000000000000,
+                0xBFF0000000000000, 0x1, 0x8000000000000001,
+                0x7FEFFFFFFFFFFFFF, 0x4076800000000000, 0x40767FFFFFFFFFFF,
+                0x4076700000000000, 0xC076800000000000, 0x3FE0000000000000]
+F32_BOUNDARY = [0x0, 0x80000000, 0x3F800000, 0xBF800000, 0x1, 0x80000001,
+                0x7F7FFFFF, 0x43B40000, 0x43B3FFFF, 0xC3B40000]
+
+
+def _boundary_value(rng, kind, meta, ln):
+    if kind == 'int':
+        lo, hi = meta if meta else (-(1 << 31), (1 << 31) - 1)
+        c = [v for v in (lo, hi, 0, 1, -1, 127, 128, 255, 256, lo + 1,
+                         hi - 1, (1 << 31) - 1, 1 << 31, (1 << 32) - 1)
+             if lo <= v <= hi]
+        if rng.random() < 0.4 or not c:
+            return rng.randint(lo, hi)
+        return rng.choice(c)
+    if kind == 'bool':
+        return rng.random() < 0.5
+    if kind == 'bytes':
+        return bytes(rng.choice([0, 1, 0x7F, 0x80, 0xFF, rng.randrange(256)])
+                     for _ in range(ln)).hex()
+    if kind == 'str':
+        return [rng.choice(CP_BOUNDARY + [rng.randrange(0x20, 0x7F)])
+                for _ in range(ln)]
+    if kind == 'f64':
+        return rng.choice(F64_BOUNDARY + [rng.getrandbits(64)])
+    if kind == 'f32':
+        return rng.choice(F32_BOUNDARY + [rng.getrandbits(32)])
+    raise AssertionError(kind)
+
+
 def _from_repo(ex):
     """did this exception pass through a frame of the code under test (or
     of a proxy called from it)?"""
@@ -387,6 +451,17 @@ def _pool_run_indexed(arg):
     return k, run_instance(*job)
 
 
+def _dead_result(inst, why):
+    return {'name': inst['name'], 'fn': inst['fn'], 'params': inst['params'],
+            'expect': inst['expect'], 'note': inst['note'], 'paths': 0,
+            'decisions': 0, 'forced': 0, 'queries': {}, 'solver_s': 0.0,
+            'held': 0, 'violations': [], 'inconclusive': [why],
+            'witness_ok': 0, 'witness_bad': [], 'samples': [],
+            'functions': [], 'shadows': [], 'W': inst['W'],
+            'complete': False, 'sampled': False, 'assertions_reached': 0,
+            'concretised_paths': 0, 'assumptions': [], 'wall_s': 0.0}
+
+
 def _worker_init():
     """workers must not outlive the runner (PR_SET_PDEATHSIG = SIGKILL)"""
     try:
@@ -416,16 +491,27 @@ def main(argv=None):
         for j in jobs:
             results.append(run_instance(*j))
     else:
+        import concurrent.futures as cf
         mpctx = mp.get_context('spawn')
         # longest first
         order = sorted(range(len(jobs)),
                        key=lambda k: -jobs[k][1]['budget_s'])
-        with mpctx.Pool(nproc, maxtasksperchild=8,
-                        initializer=_worker_init) as pool:
-            tmp = {}
-            for k, r in pool.imap_unordered(
-                    _pool_run_indexed, [(k, jobs[k]) for k in order],
-                    chunksize=1):
+        tmp = {}
+        # ProcessPoolExecutor (unlike multiprocessing.Pool) notices a worker
+        # that died (OOM, signal): the affected instances become inconclusive
+        # instead of the run hanging forever
+        with cf.ProcessPoolExecutor(nproc, mp_context=mpctx,
+                                    initializer=_worker_init,
+                                    max_tasks_per_child=8) as ex:
+            futs = {ex.submit(_pool_run_indexed, (k, jobs[k])): k
+                    for k in order}
+            for fut in cf.as_completed(futs):
+                k = futs[fut]
+                try:
+                    _k, r = fut.result()
+                except Exception as e:       # BrokenProcessPool etc.
+                    r = _dead_result(jobs[k][1], 'worker process died: %r'
+                                     % (e,))
                 tmp[k] = r
                 if os.environ.get('SYMX_PROGRESS'):
                     sys.stderr.write('[done %d/%d] %s paths=%d wall=%.1fs '
